@@ -5,3 +5,4 @@ import PyModeS.Model.CPR
 import PyModeS.Model.Adsb
 import PyModeS.Model.Commb
 import PyModeS.Model.Misc
+import PyModeS.Model.Stream
